@@ -3,7 +3,7 @@ from . import _hub
 
 CONFIG = dict(
     modules=["SigModel.Props.C04"],
-    theorems=["SigModel.Hub.reachable_inv", "SigModel.Hub.C04_membership_agrees", "SigModel.Hub.C04_at_most_one_room", "SigModel.Hub.C04_no_empty_rooms", "SigModel.Hub.C04_room_listeners", "SigModel.Hub.C04_rooms_per_backend", "SigModel.Hub.C04_room_creation_atomic", "SigModel.Hub.C04_backend_requests_ordered_per_type", "SigModel.Hub.C04_view_is_replay", "SigModel.Hub.C04_join_filter_exact", "SigModel.Hub.C04_observer_publication_partial", "SigModel.Hub.C04_leave_keeps_observers_right", "SigModel.Hub.C04_join_keeps_observers_right", "SigModel.Hub.C04_switch_keeps_observers_right", "SigModel.Hub.C04_end_keeps_observers_right", "SigModel.Hub.C04_views_change_by_events_only", "SigModel.Hub.C04_view_reset_on_room_change"],
+    theorems=["SigModel.Hub.reachable_inv", "SigModel.Hub.C04_membership_agrees", "SigModel.Hub.C04_at_most_one_room", "SigModel.Hub.C04_no_empty_rooms", "SigModel.Hub.C04_room_listeners", "SigModel.Hub.C04_rooms_per_backend", "SigModel.Hub.C04_room_creation_atomic", "SigModel.Hub.C04_backend_requests_ordered_per_type", "SigModel.Hub.C04_view_is_replay", "SigModel.Hub.C04_join_filter_exact", "SigModel.Hub.C04_observer_publication_partial", "SigModel.Hub.C04_leave_keeps_observers_right", "SigModel.Hub.C04_join_keeps_observers_right", "SigModel.Hub.C04_switch_keeps_observers_right", "SigModel.Hub.C04_end_keeps_observers_right", "SigModel.Hub.C04_views_change_by_events_only", "SigModel.Hub.C04_view_reset_on_room_change", "SigModel.Hub.C04_room_remove_keeps_observers_right"],
     generated=["Hub"],
     harness=_hub.HARNESS,
     stats=_hub.stats,
